@@ -57,7 +57,17 @@ FAULTS = {
     'file': ('OPEN "I",2,"NOFILE"', 53, False, False),
     'line': ('GOTO 65000', 8, False, False),
     'div0': ('QX=7/0', 11, False, True),
+    # faults raised inside a DEF FN body (functions defined by the prologue); ERR/ERL are those of
+    # the calling statement, RESUME calls the function again
+    'fnz': ('QX=FNZ', 5, True, False),
+    'fnu': ('QX=FNU(3)', 11, True, True),
+    'fnb': ('QX=FNB(2,0)', 9, True, False),
+    'fnt': ('QX=FNT(1)', 13, False, False),
+    'fnp': ('PRINT#1,FNU(5)', 11, True, True),
 }
+DEF_FNS = ['DEF FNZ=SQR(RP-1)', 'DEF FNU(X)=X/RP', 'DEF FNB(X,Y)=X+QA(Y+11-RP)', 'DEF FNT(X)=X+""']
+# value of a successful call (RP=1)
+FN_VALUE = {'fnz': 0, 'fnu': 3, 'fnb': 2, 'fnp': 5}
 
 
 def fault_atoms(st_):
@@ -70,8 +80,22 @@ def fault_atoms(st_):
     text, code, rep, soft = FAULTS[kind]
     if rep:
         out.append({'k': 'let', 'var': 'RP', 'e': ['n', 0]})
-    out.append({'k': 'fault', 'text': text, 'code': code, 'ok': ['v', 'RP'] if rep else None,
-                'soft': soft})
+    a = {'k': 'fault', 'text': text, 'code': code, 'ok': ['v', 'RP'] if rep else None, 'soft': soft}
+    if kind in FN_VALUE and kind != 'fnp':
+        a['sets'] = 'QX'
+        a['val'] = ['n', FN_VALUE[kind]]
+    out.append(a)
+    if kind == 'fnp':
+        # the PRINT itself writes the value when the call succeeds
+        a['k'] = 'fnprint'
+        a['prints'] = FN_VALUE[kind]
+    if kind in FN_VALUE and st_.get('again'):
+        # a later, valid call of the same function behaves normally
+        k2 = 'fnu' if kind == 'fnp' else kind
+        out.append({'k': 'let', 'var': 'RP', 'e': ['n', 1]})
+        out.append({'k': 'fault', 'text': FAULTS[k2][0], 'code': FAULTS[k2][1], 'ok': ['v', 'RP'],
+                    'soft': FAULTS[k2][3], 'sets': 'QX', 'val': ['n', FN_VALUE[k2]]})
+        out.append({'k': 'pr', 'items': [['v', 'QX']]})
     return out
 
 
@@ -89,6 +113,9 @@ class Compiler21(R.Compiler):
             self.emit({'k': 'onerr', 'to': self.hlabel}, True)
             if self.case.get('trapnl'):
                 self.newline()
+        for i, d in enumerate(DEF_FNS):
+            self.emit({'k': 'raw', 'text': d}, i % 2 == 0 or bool(self.case.get('trapnl')))
+        self.newline()
 
     def block(self, blk, ctx):
         if blk is self.case['main']:
@@ -322,11 +349,13 @@ ERROR_CODES = ([1, 2, 3, 4, 5, 6, 7, 8, 9, 10, 11, 12, 13, 14, 15, 16, 17, 18, 1
 
 def site():
     kinds = st.sampled_from(['error'] * 6 + ['div', 'div', 'ovf', 'sub', 'sqr', 'tm', 'data',
-                                             'file', 'line', 'div0'])
-    return st.builds(lambda kind, code, hm, nl: {'t': 'err', 'kind': kind, 'code': code, 'hm': hm,
-                                                  'nl': nl},
+                                             'file', 'line', 'div0'] +
+                            ['fnz', 'fnu', 'fnu', 'fnb', 'fnt', 'fnp'])
+    return st.builds(lambda kind, code, hm, nl, again: {'t': 'err', 'kind': kind, 'code': code,
+                                                         'hm': hm, 'nl': nl, 'again': again},
                      kinds, st.sampled_from(ERROR_CODES),
-                     st.sampled_from([0, 1, 1, 1, 2, 2, 2, 2, 3, 3, 4, 5, 6, 7, 8]), C19._nl())
+                     st.sampled_from([0, 1, 1, 1, 2, 2, 2, 2, 3, 3, 4, 5, 6, 7, 8]), C19._nl(),
+                     st.booleans())
 
 
 def extras():
@@ -346,7 +375,8 @@ def strat_prog():
                 'maxfatal': maxfatal, 'trapnl': trapnl}
     direct = st.builds(lambda kind, code, hm, tags: {'kind': kind, 'code': code, 'hm': hm,
                                                       'tags': tags},
-                       st.sampled_from(['error', 'error', 'div', 'ovf', 'sqr', 'tm', 'sub']),
+                       st.sampled_from(['error', 'error', 'div', 'ovf', 'sqr', 'tm', 'sub', 'fnu',
+                                        'fnz', 'fnb']),
                        st.sampled_from(ERROR_CODES), st.sampled_from([0, 1, 2, 2, 3, 5, 6]),
                        st.integers(0, 2))
     return st.builds(build,
@@ -391,6 +421,17 @@ REGRESSIONS = [
     {'main': [{'t': 'tag'}, {'t': 'tag'}, {'t': 'err', 'kind': 'file', 'code': 0, 'hm': 2},
               {'t': 'tag'}], 'subs': [[{'t': 'tag'}]], 'trap': False, 'rec': 0, 'hv': 0,
      'direct': []},
+    # errors raised inside DEF FN bodies: RESUME calls the function again, later calls are normal
+    {'main': [{'t': 'tag'},
+              {'t': 'for', 'ty': '%', 'a': 1, 'b': 2, 's': None, 'named': False, 'body': [
+                  {'t': 'err', 'kind': 'fnu', 'code': 0, 'hm': 1, 'again': True}, {'t': 'tag'},
+                  {'t': 'gosub', 'k': 0}]},
+              {'t': 'err', 'kind': 'fnp', 'code': 0, 'hm': 2, 'again': True}, {'t': 'tag'}],
+     'subs': [[{'t': 'err', 'kind': 'fnz', 'code': 0, 'hm': 2, 'again': True}, {'t': 'tag'},
+               {'t': 'err', 'kind': 'fnb', 'code': 0, 'hm': 1, 'again': False},
+               {'t': 'err', 'kind': 'fnt', 'code': 0, 'hm': 2, 'again': False}]],
+     'trap': True, 'rec': 0, 'hv': 0,
+     'direct': [{'kind': 'fnu', 'code': 0, 'hm': 1, 'tags': 1, 'id': 0}]},
     {'main': [{'t': 'tag'}, {'t': 'resume', 'mode': 'next'}, {'t': 'tag'}],
      'subs': [[{'t': 'tag'}]], 'trap': True, 'rec': 0, 'hv': 0, 'direct': [], 'maxfatal': 1},
 ]
@@ -408,5 +449,6 @@ KILLS = [
     "implementation.py end_: END in the handler keeps error_resume -> trace",
     "interpreter.py error_: ERROR 0 accepted -> trace",
     "interpreter.py resume_: RESUME n leaves error_handle_mode set -> trace",
+    "userfunctions.py UserFunction.evaluate: recursion guard cleared only after a successful body (not in finally) -> trace (error sites inside DEF FN bodies, second call gives bogus ERR 7)",
     "SURVIVED (equivalent): trap_error e.pos = current_statement instead of tell()-1 (same line number)",
 ]
